@@ -226,6 +226,15 @@ pub fn charset(r: &mut Rng) -> String {
     r.pick(&["\x1b(0", "\x1b(B", "\x1b)0", "\x1b)B", "\x0e", "\x0f", "\x0e", "\x1b(A", "\x1b)é"]).to_string()
 }
 
+/// A palette index, half of the time one of the boundaries between the encodings (8 basic, 8 bright, cube, greys).
+fn colour_index(r: &mut Rng) -> u64 {
+    if r.chance(1, 2) {
+        *r.pick(&[0u64, 7, 8, 15, 16, 17, 231, 232, 255])
+    } else {
+        r.n(256)
+    }
+}
+
 pub fn sgr_param(r: &mut Rng) -> String {
     match r.n(24) {
         0 => String::new(),
@@ -239,10 +248,10 @@ pub fn sgr_param(r: &mut Rng) -> String {
         8 => format!("{}", 100 + r.n(8)),
         9 => "39".into(),
         10 => "49".into(),
-        11 => format!("38;5;{}", r.n(256)),
-        12 => format!("48;5;{}", r.n(256)),
-        13 => format!("38:5:{}", r.n(256)),
-        14 => format!("48:5:{}", r.n(256)),
+        11 => format!("38;5;{}", colour_index(r)),
+        12 => format!("48;5;{}", colour_index(r)),
+        13 => format!("38:5:{}", colour_index(r)),
+        14 => format!("48:5:{}", colour_index(r)),
         15 => format!("38;2;{};{};{}", r.n(256), r.n(256), r.n(256)),
         16 => format!("48;2;{};{};{}", r.n(256), r.n(256), r.n(256)),
         17 => format!("38:2:{}:{}:{}", r.n(256), r.n(256), r.n(256)),
